@@ -4,6 +4,7 @@ import (
 	"fmt"
 	"math/rand/v2"
 	"os"
+	"runtime"
 	"strings"
 	"sync"
 	"sync/atomic"
@@ -49,6 +50,8 @@ func (o c04op) String() string {
 		return fmt.Sprintf("ShowCursor(%d,%d)", o.X, o.Y)
 	case "set":
 		return fmt.Sprintf("set(%d,%d,%U,%s)", o.X, o.Y, o.R, o.Sp.Short())
+	case "winsize":
+		return fmt.Sprintf("window-size(%dx%d)+show", o.X, o.Y)
 	}
 	return o.K
 }
@@ -98,8 +101,11 @@ func c04gen(rg *rand.Rand) []c04op {
 				r = shadow.RunesWide[rg.IntN(len(shadow.RunesWide))]
 			}
 			ops = append(ops, c04op{K: "set", X: rg.IntN(10), Y: rg.IntN(4), R: r, Sp: shadow.GenSpec(rg, true)})
-		case k < 90:
+		case k < 88:
 			ops = append(ops, c04op{K: "show"})
+		case k < 90:
+			// the terminal reports a window of no columns or rows (ssh/pty without a size), or a real one again
+			ops = append(ops, c04op{K: "winsize", X: []int{0, 0, 10, 0, 10}[rg.IntN(5)], Y: []int{0, 4, 0, 4, 4}[rg.IntN(5)]})
 		default:
 			ops = append(ops, c04op{K: "suspend"})
 			susp = true
@@ -126,6 +132,7 @@ type c04cfg struct {
 	resizeInDrain bool
 	readErr       bool // the first Read of the first engagement fails
 	windowCall    bool // another goroutine of the application enables the modes while a shutdown is in progress
+	windowFini    bool // another goroutine calls Fini while the last Suspend of the history is in progress
 }
 
 // c04exec runs one history; returns category and description of the first violation.
@@ -337,7 +344,7 @@ func c04exec(cfg c04cfg, ops []c04op, edges map[string]int) (cat, what string) {
 			mouse, paste, focus = 7, true, true
 		}
 	}
-	for _, o := range ops {
+	for oi, o := range ops {
 		ok := true
 		switch o.K {
 		case "mouse":
@@ -385,9 +392,54 @@ func c04exec(cfg c04cfg, ops []c04op, edges map[string]int) (cat, what string) {
 			ok = app(func() { s.SetContent(o.X, o.Y, o.R, nil, o.Sp.Style()) })
 		case "show":
 			ok = app(func() { s.Show() })
+		case "winsize":
+			ft.Locked(func() {
+				if o.X > 0 && o.Y > 0 {
+					term.Resize(o.X, o.Y)
+				}
+			})
+			ft.SetSize(o.X, o.Y)
+			ft.NotifyNow()
+			ok = app(func() { s.Show() })
 		case "suspend":
 			var e error
+			var finiDone chan struct{}
+			if cfg.windowFini && oi == len(ops)-1 {
+				finiDone = make(chan struct{})
+				started := false
+				ft.OnNotifyNil = func() {
+					if started {
+						return
+					}
+					started = true
+					go func() {
+						defer close(finiDone)
+						ft.BeginApp()
+						ft.BeginFini()
+						s.Fini()
+						ft.EndApp()
+					}()
+					// let the other call get as far as it can: finished, or waiting for this Suspend
+					for i := 0; i < 3000; i++ {
+						select {
+						case <-finiDone:
+							return
+						default:
+							runtime.Gosched()
+						}
+					}
+				}
+			}
 			ok = app(func() { e = s.Suspend() })
+			if ok && finiDone != nil {
+				select {
+				case <-finiDone:
+					finished = true
+				case <-time.After(30 * time.Second):
+					ok = false
+				}
+				ft.OnNotifyNil = nil
+			}
 			if ok && e != nil {
 				return "suspend:error", e.Error()
 			}
@@ -457,7 +509,7 @@ func C04(r *core.Run) {
 				}
 				rg := r.Rand("h", se.name, altOff, hi)
 				ops := c04gen(rg)
-				cfg := c04cfg{se: se, altOff: altOff, drainNil: hi%2 == 1, resizeInDrain: hi%3 == 2, readErr: hi%5 == 4, windowCall: hi%7 == 3}
+				cfg := c04cfg{se: se, altOff: altOff, drainNil: hi%2 == 1, resizeInDrain: hi%3 == 2, readErr: hi%5 == 4, windowCall: hi%7 == 3, windowFini: hi%11 == 5}
 				cat, what := c04exec(cfg, ops, led)
 				nt := false
 				for _, o := range ops {
@@ -506,7 +558,7 @@ func C04(r *core.Run) {
 					if altOff {
 						alt = "TCELL_ALTSCREEN=disable"
 					}
-					r.Violate(cat+"|"+c04family(se), fmt.Sprintf("%s (%s, drainNil=%v, resize notification during Drain=%v, first Read fails=%v, modes enabled from another goroutine during the shutdown=%v): %s :: history: %s", se.name, alt, cfg.drainNil, cfg.resizeInDrain, cfg.readErr, cfg.windowCall, what, strings.Join(ss, " ")), map[string]any{"entry": se.name, "altscreen_disabled": altOff, "ops": ss})
+					r.Violate(cat+"|"+c04family(se), fmt.Sprintf("%s (%s, drainNil=%v, resize notification during Drain=%v, first Read fails=%v, modes enabled from another goroutine during the shutdown=%v, Fini from another goroutine during the last Suspend=%v): %s :: history: %s", se.name, alt, cfg.drainNil, cfg.resizeInDrain, cfg.readErr, cfg.windowCall, cfg.windowFini, what, strings.Join(ss, " ")), map[string]any{"entry": se.name, "altscreen_disabled": altOff, "ops": ss})
 				}
 				if si == 0 && hi < 2 && !altOff {
 					var ss []string
